@@ -56,12 +56,21 @@ def run_case(spec):
               'variable'][spec['idx'] % 8]
   # total non-incremental cost anywhere between 1e-7 and 1e7: "zero" must mean zero, not "small"
   cost_scale = 1.0 if scenario != 'variable' else r.choice([1.0, 1.0, 1e-6, 1e-4, 1e3])
+  tiny_total = scenario == 'variable' and spec['idx'] % 16 == 1     # non-incremental cost of a few 1e-9 in total
   extras = set()
   if r.random() < 0.2:
     extras.add('unassigned_geo')
   exp = gen.gen_experiment(r, g, extras=extras, cost_mode=scenario, cost_scale=cost_scale,
                            n_pre=gen.weighted(r, [(3, 0.5), (4, 0.5), (5, 1), (r.randrange(6, 15), 4), (r.randrange(15, 60), 4)]))
   frame = exp['frame']
+  if tiny_total:
+    # "zero" must mean zero: a total of 2e-9 .. 8e-9 (well above the 1e-10 the library treats as rounding residue)
+    pre_or_ctl_test = (frame['period'] == 0) | ((frame['period'] == 1) & (frame['group'] == 1))
+    total = float(frame.loc[pre_or_ctl_test, 'cost'].sum())
+    if total > 0:
+      frame = frame.copy()
+      frame['cost'] = frame['cost'].astype(float) * (r.uniform(2e-9, 8e-9) / total)
+      exp = dict(exp, frame=frame)
   use_cool = r.random() < 0.6
   level = r.choice([0.9, 0.8, 0.95, 0.5, 0.99, round(r.uniform(0.05, 0.97), 3), 0.3])
   tails = r.choice([1, 2])
@@ -69,7 +78,7 @@ def run_case(spec):
   counters = collections.Counter()
   violations = []
   desc = {k: exp[k] for k in ('n_pre', 'n_test', 'n_cool', 'n_ctl', 'n_trt', 'shape', 'extras', 'lift', 'int_dtype')}
-  desc.update(scenario=scenario, use_cooldown=use_cool, level=level, tails=tails, cost_scale=cost_scale)
+  desc.update(scenario=scenario, use_cooldown=use_cool, level=level, tails=tails, cost_scale=cost_scale, tiny_total=tiny_total)
 
   def add(clause, mech, detail):
     violations.append({'clause': clause, 'mech': mech, 'detail': '%s; case %r' % (detail, desc)})
@@ -181,7 +190,7 @@ def run_case(spec):
     else:
       add('ordering', '%s-ordering' % label, '%s-cost summary(level=%r, tails=%d): lower=%.12g estimate=%.12g upper=%.12g' % (label, level, tails, low, est, up))
   # ---- scale equivariance
-  a = 2.0 ** r.randrange(-3, 6)
+  a = 2.0 ** (r.randrange(0, 6) if tiny_total else r.randrange(-3, 6))
   b = 2.0 ** r.randrange(-3, 8)
   f2 = frame.copy()
   f2['cost'] = f2['cost'] * a
@@ -197,7 +206,9 @@ def run_case(spec):
     for k in ('estimate', 'lower', 'upper', 'precision'):
       v1, v2 = float(row[k]) * q, float(row2[k])
       width = abs(float(row['precision'])) if math.isfinite(float(row['precision'])) else abs(float(row['estimate']))
-      if not (v1 == v2 or util.close(v1, v2, rtol=1e-7, atol=1e-9 * (abs(float(row['estimate'])) + width) * q)):
+      # iROAS figures are (differences of large response totals) / cost: absolute accuracy ~ eps * volume / cost
+      noise_floor = 1e-11 * vol / max(abs(float(row['incremental_cost'])), 1e-300)
+      if not (v1 == v2 or util.close(v1, v2, rtol=1e-7, atol=(1e-9 * (abs(float(row['estimate'])) + width) + noise_floor) * q)):
         add('equivariance', 'equivariance:' + k, 'cost x %g, response x %g: %s=%.12g, wanted %.12g' % (a, b, k, v2, v1))
         break
     for k in ('probability', 'relative_lift', 'relative_lift_lower', 'relative_lift_upper'):
